@@ -101,14 +101,24 @@ ta_uri = "{TA_URI}"
 
     /// Publication server + embedded trust anchor (all resources).
     pub fn bootstrap(&self) -> KrillResult<()> {
+        self.bootstrap_repo()?;
+        self.bootstrap_ta(true)
+    }
+
+    /// First half of `bootstrap`: the publication server only (no publisher exists yet).
+    pub fn bootstrap_repo(&self) -> KrillResult<()> {
         let uris = PublicationServerUris {
             rrdp_base_uri: uri::Https::from_str(RRDP_BASE).unwrap(),
             rsync_jail: uri::Rsync::from_str(RSYNC_JAIL).unwrap(),
         };
-        self.krill.repo_manager().init(uris, &self.krill)?;
+        self.krill.repo_manager().init(uris, &self.krill)
+    }
+
+    /// Second half of `bootstrap`: the embedded trust anchor, with or without an HTTPS URI in its TAL.
+    pub fn bootstrap_ta(&self, with_https_uri: bool) -> KrillResult<()> {
         self.krill.ca_manager().ta_init_fully_embedded(
             uri::Rsync::from_str(TA_AIA).unwrap(),
-            vec![uri::Https::from_str(TA_URI).unwrap()],
+            if with_https_uri { vec![uri::Https::from_str(TA_URI).unwrap()] } else { vec![] },
             None, &self.actor, &self.slow,
         )
     }
